@@ -276,3 +276,12 @@ def _with(eng, st, **names):
     sub.stack.append(Frame(dict(names), len(sub.stack) - 1, sub.frame.globs, sub.frame.qualname))
     return sub
 _pred('block_fees_ok', [LIST(CLS('Transaction')), MAP(CLS('OutputReference'), CLS('Output'))])
+
+
+@GH.ghost('member')
+def member(eng, st, x, lst):
+    """x is (the same value as) an element of the list"""
+    lt = eng.lift(lst, st) if not isinstance(lst, V) else lst
+    k = eng.fresh_term('mk', z3.IntSort())
+    xt = eng.term(x, lt.ty.args[0], st)
+    return V(z3.Exists([k], z3.And(0 <= k, k < z3.Length(lt.t), lt.t[k] == xt)), BOOL)
